@@ -238,6 +238,7 @@ func init() {
 		return nil
 	})
 	reg(vfPkg+".Yield", func(fr *frame, a []value) value { fr.ex.preemptPoint(); return nil })
+	reg(vfPkg+".Busy", func(fr *frame, a []value) value { fr.ex.preemptPoint(); return nil })
 	reg(vfPkg+".Concretize", func(fr *frame, a []value) value {
 		return int(fr.ex.asIntC(a[0], "vf.Concretize"))
 	})
